@@ -423,8 +423,7 @@ def _order(repo, col):
 # --------------------------------------------------------------------------------------
 
 
-def _time(repo, col):
-    R = "R-C08-time"
+def _time(repo, col, R="R-C08-time"):
     fi = repo.func("jaxley/integrate.py", "integrate")
     ex = idx.expander(repo, fi)
     fn = fi.node
@@ -434,13 +433,28 @@ def _time(repo, col):
     col.check(len(tstores) == 1, R, fi, "externals transposed to (time, n) exactly once",
               "row k of every external is consumed by scan iteration k",
               f"{len(tstores)} transpositions of the externals", node=tstores[0].node if tstores else fn)
+    for s_ in tstores:
+        cond = [g for g in s_.guards if g.op != "loop"]
+        col.check(not cond, R, fi, "the transposition to (time, n) is unconditional",
+                  "stimulate/clamp store (n, time); every key is transposed",
+                  f"`{unparse(s_.node)[:40]} = ....T` runs only if `{cond[0].short(70) if cond else ''}`: a decision taken from the SHAPE cannot "
+                  f"tell (n, time) from (time, n) when the number of steps equals the number of inputs; such a square array is left "
+                  f"untransposed and time and input axes are swapped", node=s_.node)
     # pad / truncate block under `if t_max is not None`
     blk = None
     for n in walk_no_nested(fn):
-        if isinstance(n, ast.If) and unparse(n.test) == "t_max is not None":
+        if isinstance(n, ast.If) and any(isinstance(x, ast.Name) and x.id == "t_max" for x in ast.walk(n.test)) and blk is None:
             blk = n
     if blk is None:
-        raise AnalysisError("integrate: `if t_max is not None` block vanished")
+        raise AnalysisError("integrate: the block that pads / truncates the inputs to t_max vanished")
+    tt = ex.term(blk.test)
+    is_none_test = tt.op == "cmp" and tt.name == "is not" and tt.args[0].op == "param" and tt.args[0].name == "t_max" and \
+        tt.args[1].op == "const" and tt.args[1].name is None
+    truthy = tt.op == "param" and tt.name == "t_max"
+    col.add(R, fi, "inputs are padded / truncated whenever t_max is given", "DISCHARGED" if is_none_test else ("VIOLATED" if truthy else "UNDECIDED"),
+            "if t_max is not None" if is_none_test else
+            f"the block is guarded by `{unparse(blk.test)}`: t_max = 0.0 (exactly one step, int(0.0 // dt + 1) == 1) is falsy and is treated "
+            f"like None, so the whole stimulus is simulated instead of one step", node=blk)
     inner = [n for n in ast.walk(blk) if isinstance(n, ast.If) and n is not blk]
     cmpn = next((n for n in inner if isinstance(n.test, ast.Compare) and "shape[0]" in unparse(n.test)), None)
     if cmpn is None:
